@@ -619,5 +619,5 @@ def c04_cases(tier: str, seed: int) -> List[Case]:
                 continue
             for kind in kinds:
                 out.append(Case("h04_sound", f"s:{tname(a)}<-{tname(b)}|{kind}", {"A": a, "B": b, "okind": kind},
-                                timeout=60 if quick else 240, twin=False))
+                                timeout=60 if quick else 240, twin=True, vacuous_ok=True))
     return out
